@@ -24,7 +24,7 @@ THEOREMS = [
     'Pfst.C08.reindent_roundtrip', 'Pfst.C08.indentBlock_fixed', 'Pfst.C08.bytes_never_indentable',
     'Pfst.C08.strict_only_first',
     'Pfst.C08.header_untouched', 'Pfst.C08.toElif_sound', 'Pfst.C08.toElif_complete',
-    'Pfst.C08.identifier_forms_normalised', 'Pfst.C08.annSimple_correct', 'Pfst.C08.twins_same_fixup', 'Pfst.C08.with_family_fixed',
+    'Pfst.C08.identifier_forms_normalised', 'Pfst.C08.posAfter_spec', 'Pfst.C08.annSimple_correct', 'Pfst.C08.twins_same_fixup', 'Pfst.C08.with_family_fixed',
     'Pfst.C08.put_back', 'Pfst.C08.put_copy', 'Pfst.C08.replace_self',
 ]
 RULE = ('(a) repr_str_multiline on ALL strings over the 12-character alphabet {\' " \\ LF TAB CR NUL a SPACE e-acute NBSP '
@@ -60,6 +60,10 @@ RULE = ('(a) repr_str_multiline on ALL strings over the 12-character alphabet {\
         'slice [s:e] of every list field — AST or identifier elements (Global / Nonlocal names, kwd_attrs) — of 33 statement '
         'shapes written with non-ASCII identifiers, also after a multi-byte string on the same line and inside a def: cut + put '
         'back and replace-by-copy, twice, full reparse incl. positions; '
+        'line comments (get against the tokenizer, put, read back, reparse, stale caches) on 348 block statements whose header '
+        'spans lines in every break position and continuation indent (also column 0) and whose header children contain colons '
+        '(slices, dicts, lambdas, annotations): class bases / keywords / starred in every order, def parameters and returns, '
+        'if / elif / while / for / with / except / case headers, else blocks; '
         'read accessors (own_src / own_lines with docstr None / True / False / strict, whole=False, get_docstr, '
         'get_line_comment, copy().src) called in all 24 orders and rotations on ONE unmodified node under rotating '
         'FST.options(docstr=...) defaults, each answer = the answer of a fresh tree under the same effective options; '
@@ -1833,6 +1837,177 @@ def _sweep_slices(ctx):
     ctx.notes['slice_product_refused'] = refused
 
 
+# ---- line comments on block statements whose header spans lines and whose header children contain colons --------------
+
+HDR_BLOCKS = [      # (prefix, elements joined by commas, suffix before the block colon, body, following lines, field)
+    ('class P(', ['Base', 'metaclass=Meta', '*extra[1:]'], ')', 'x = 1', [], None),
+    ('class P(', ['Base', '*e[1:]', 'metaclass=M'], ')', 'x = 1', [], None),
+    ('class P(', ['metaclass=M', '*e[a:b]'], ')', 'x = 1', [], None),
+    ('class P(', ['k={1: 2}', '*e[lambda: 0]'], ')', 'x = 1', [], None),
+    ('class P(', ['Base', 'm=M', '**kw[1:]'], ')', 'x = 1', [], None),
+    ('class P(', ['A', 'B[x:y]', 'C'], ')', 'x = 1', [], None),
+    ('class P[T: int](', ['A', 'k=T', '*b[1:]'], ')', 'x = 1', [], None),
+    ('def f(', ['a', 'b: int = 1', '*c: {1: 2}', 'd=lambda: 0', '**e'], ')', 'pass', [], None),
+    ('def f(', ['a: x[1:]', 'b=y[2:]'], ') -> r[3:]', 'pass', [], None),
+    ('async def f(', ['a', '*', 'b: int'], ') -> {1: 2}', 'pass', [], None),
+    ('if f(', ['a', 'b[1:]', 'k=lambda: 0'], ')', 'pass', ['else:', '    pass'], None),
+    ('if f(', ['a', 'b[1:]'], ')', 'pass', ['else:', '    pass'], 'orelse'),
+    ('while g(', ['a', '{1: 2}', 'c[::2]'], ') and x[1:]', 'pass', [], None),
+    ('for i in g(', ['a', 'b[1:]', 'c'], ')', 'pass', ['else:', '    pass'], None),
+    ('with o(', ['a', 'b[1:]'], ') as c, d', 'pass', [], None),
+    ('with (', ['a as b', 'c[1:] as d', 'e'], ')', 'pass', [], None),
+    ('try:\n    pass\nexcept (', ['A', 'B[1:]', 'C'], ') as e', 'pass', ['finally:', '    pass'], 'handler'),
+    ('match s:\n    case [', ['a', 'b', '*c'], '] if d[1:]', 'pass', [], 'case'),
+    ('if x:\n    pass\nelif f(', ['a', 'b[1:]'], ')', 'pass', [], 'elif'),
+]
+
+
+def _hdr_block_programs():
+    out = []
+    for prefix, elems, suffix, body, after, field in HDR_BLOCKS:
+        layouts = [', '.join(elems)]
+        for k in range(1, len(elems)):
+            for ind in ('', ' ', '    ', '              '):
+                layouts.append(', '.join(elems[:k]) + ',\n' + ind + ', '.join(elems[k:]))
+        layouts.append((',\n' + '  ').join(elems) + '\n')
+        nested = prefix.startswith(('match', 'try', 'if x'))
+        for lay in layouts:
+            for tail in ('', '  # old comment'):
+                bind = '        ' if prefix.startswith('match') else '    '
+                src = prefix + lay + suffix + ':' + tail + '\n' + bind + body + '\n' + ''.join(l + '\n' for l in after)
+                try:
+                    ast.parse(src)
+                except SyntaxError:
+                    continue
+                out.append((src, field))
+    return out
+
+
+def _header_colon_comment(src, stmt_lineno, stmt_end_lineno):
+    """the comment on the physical line of the first block-opening colon at bracket depth 0 inside [stmt_lineno, ...]
+    (lambda colons skipped) by the CPython tokenizer: (found a colon, comment text or None)"""
+    depth = lambdas = 0
+    colon_line = None
+    for t in util.tokens(src):
+        if t.start[0] < stmt_lineno:
+            continue
+        if colon_line is not None:
+            if t.start[0] != colon_line or t.type in (tokenize.NEWLINE, tokenize.NL):
+                return True, None
+            if t.type == tokenize.COMMENT:
+                return True, t.string
+            continue
+        if t.type == tokenize.OP:
+            if t.string in '([{':
+                depth += 1
+            elif t.string in ')]}':
+                depth -= 1
+            elif t.string == ':' and depth == 0:
+                if lambdas:
+                    lambdas -= 1
+                else:
+                    colon_line = t.start[0]
+        elif t.type == tokenize.NAME and t.string == 'lambda' and depth == 0:
+            lambdas += 1
+    return colon_line is not None, None
+
+
+def _hdrc_case(arg):
+    src, field = arg
+    out = []
+    root = _mk(src)
+    d0 = ast.dump(ast.parse(src))
+    if field == 'handler':
+        f, fld = root.body[0].handlers[0], None
+    elif field == 'case':
+        f, fld = root.body[0].cases[0], None
+    elif field == 'elif':
+        f, fld = root.body[0].orelse[0], None
+    else:
+        f, fld = root.body[0], field
+    path = _ser_path(root.child_path(f))
+    kind = f.a.__class__.__name__
+    lineno = getattr(f.a, 'lineno', None) or f.a.pattern.lineno
+    w = {'op': 'hdr-comment', 'src': src, 'path': path, 'field': fld}
+    if fld == 'orelse':
+        else_ln = next(i for i, l in enumerate(src.split('\n')) if l.startswith('else:')) + 1
+        found, want = _header_colon_comment(src, else_ln, else_ln)
+    else:
+        found, want = _header_colon_comment(src, lineno, 0)
+    want_full = want
+    want = None if want is None else want[1:].strip()
+    try:
+        _read_set(root, path)
+        got = f.get_line_comment(fld)
+        if got != want:
+            return [(kind, 'get!=tokenize', f'get_line_comment({fld!r}) = {got!r}, the tokenizer finds {want_full!r} on the header line', w)]
+        f.put_line_comment('new: comment', fld)
+        s = _stale_after_write(root, path)
+        back = f.get_line_comment(fld)
+    except Exception as e:
+        nm = type(e).__name__
+        return [(kind, 'refused' if nm in REFUSALS else 'crash:' + nm, str(e)[:200], w)]
+    new = root.src
+    try:
+        d2 = ast.dump(ast.parse(new))
+    except SyntaxError as e:
+        return [(kind, 'unparsable', f'{e.msg} line {e.lineno}; new source: {new[:200]!r}', w)]
+    r = None
+    if back != 'new: comment':
+        r = ('get!=put', f'wrote "new: comment", read back {back!r}; new source {new[:200]!r}')
+    elif d2 != d0 or ast.dump(root.a) != d0:
+        r = ('ast-changed', f'new source {new[:200]!r}')
+    elif s:
+        r = ('stale-after-write', s)
+    else:
+        found2, c2 = _header_colon_comment(new, 1 if fld != 'orelse' else else_ln, 0) if fld == 'orelse' else \
+            _header_colon_comment(new, lineno, 0)
+        d = util.tree_equals_parse(root)
+        if d:
+            r = ('tree!=parse', d[:300])
+        elif c2 is None or c2[1:].strip() != 'new: comment':
+            r = ('comment-misplaced', f'the tokenizer finds {c2!r} on the header line of {new[:200]!r}')
+    return [(kind, r[0] if r else None, r[1] if r else '', w)]
+
+
+def _sweep_header_comments(ctx):
+    n = ref = 0
+    for lst in pmap(_hdrc_case, _hdr_block_programs()):
+        for kind, r, detail, w in lst:
+            n += 1
+            ctx.count('hdrc:' + repr(w), True)
+            if r == 'refused':
+                ref += 1
+            elif r:
+                ctx.fail(f'C08|line_comment|{kind}-multiline-header|{r}', f'line comment of a {kind} whose header spans lines: {r}: {detail}', w)
+    # the decision behind the header end of a class: is the last starred base after the last keyword?
+    name = 'last_block_header_child (ClassDef) vs Pfst.SharedDelims.posAfter'
+    from fst.astutil import last_block_header_child
+    items, impls, srcs = [], [], []
+    for src, _ in _hdr_block_programs():
+        c = ast.parse(src).body[0]
+        if isinstance(c, ast.ClassDef) and c.keywords and c.bases and isinstance(c.bases[-1], ast.Starred):
+            b, k = c.bases[-1], c.keywords[-1]
+            kpos = (k.lineno, k.col_offset)
+            items.append([b.lineno, b.col_offset, kpos[0], kpos[1]])
+            impls.append(last_block_header_child(c) is b)
+            srcs.append(src)
+    outs = _batched(ctx, name, 'C08.posafter', 'items', items)
+    if outs is not None:
+        bad = 0
+        for it, io_, s, mo in zip(items, impls, srcs, outs):
+            ctx.corr_cases += 1
+            if mo != io_:
+                bad += 1
+                _disagree(ctx, name, {'src': s, 'positions': it}, {'starred base is the last header child': io_}, mo)
+        ctx.tally('correspondence_cases', name)
+        ctx.dist['correspondence_cases'][name] = len(items)
+        if bad:
+            ctx.brk('correspondence', name, f'{bad}/{len(items)} differ; first: ' + repr(_FIRST.get(name))[:700])
+    ctx.notes['multiline_header_comments'] = n
+    ctx.notes['multiline_header_comments_refused'] = ref
+
+
 def _programs(ctx, n, stdlib):
     rng = random.Random(ctx.rng.random())
     return corpus.programs(rng, n, stdlib=stdlib)
@@ -1859,6 +2034,7 @@ def sweep(ctx):
     _timed(ctx, 'blocks', _sweep_blocks, ctx, blks.programs())
     _timed(ctx, 'headers', _sweep_headers, ctx)
     _timed(ctx, 'identifiers', _sweep_identifiers, ctx)
+    _timed(ctx, 'header_comments', _sweep_header_comments, ctx)
     _timed(ctx, 'primitives', _sweep_primitives, ctx)
     _timed(ctx, 'slices', _sweep_slices, ctx)
     docp = [(m, s) for m, s in lp if not m['bytes'] and m['form'].startswith('triple')]
@@ -1884,6 +2060,7 @@ def search(ctx):
     strs = hint_strs + _fragment_strings(4) + _all_strings(4) + _random_strings(rng, 6000, lo=1, hi=80)
     _sweep_doc(ctx, [], strs[:16000])
     if not ctx.failures:
+        _sweep_header_comments(ctx)
         _sweep_primitives(ctx)
         _sweep_slices(ctx)
         _sweep_identifiers(ctx)
@@ -1926,6 +2103,14 @@ def replay(ctx, data):
         r = _doc_one(w['host'], w['s'])
         if r:
             ctx.fail('replay', f'{r[0]}: {r[1]}', w)
+        return
+    if op == 'hdr-comment':
+        for kind, r, detail, _ in _hdrc_case((w['src'], {None: None, 'orelse': 'orelse'}.get(w['field'], None)
+                                              if w['path'] == [['body', 0]] else
+                                              ('handler' if w['path'][-1][0] == 'handlers' else
+                                               'case' if w['path'][-1][0] == 'cases' else 'elif'))):
+            if r and r != 'refused':
+                ctx.fail('replay', f'{r}: {detail}', w)
         return
     if op == 'prim':
         r = _prim_one(w['host'], w['const'], w['value'], w['which'])
